@@ -36,13 +36,14 @@ var c05Bound = map[string]c05Val{
 var c05BoundNames = []string{"int7", "float", "str", "boolT", "slice", "map", "zero", "boolF", "empty", "nilv", "missing"}
 
 type c05Case struct {
-	AForm string `json:"a"`     // omit | static | interp | bound:<name> | vbind:<name>
-	BForm string `json:"b"`     // omit | static | bound
-	IncA  bool   `json:"inc_a"` // includer defines a
-	FmA   bool   `json:"fm_a"`  // component front-matter defines a
-	Req   string `json:"req"`   // none | a | a,b | a+b | require:a
-	Shape string `json:"shape"` // single | twice | infor | nested
-	Short bool   `json:"short"`
+	AForm  string `json:"a"`                 // omit | static | interp | bound:<name> | vbind:<name>
+	BForm  string `json:"b"`                 // omit | static | bound
+	IncA   bool   `json:"inc_a"`             // includer defines a
+	FmA    bool   `json:"fm_a"`              // component front-matter defines a
+	FmNull bool   `json:"fm_null,omitempty"` // component front-matter defines a as null (a: ~): bound to nothing
+	Req    string `json:"req"`               // none | a | a,b | a+b | require:a
+	Shape  string `json:"shape"`             // single | twice | infor | nested
+	Short  bool   `json:"short"`
 }
 
 func (c *c05Case) Key() string { return core.KeyOf(c) }
@@ -64,6 +65,9 @@ func (c *c05Case) files() (Files, map[string]any) {
 	fm := ""
 	if c.FmA {
 		fm = "---\na: FM_A\n---\n"
+	}
+	if c.FmNull {
+		fm = "---\na: ~\n---\n"
 	}
 	body := `<div class="comp"><i class="pa">{{ a }}</i><i class="ta">{{ a | type }}</i><i class="pb">{{ b }}</i><i class="po">{{ o }}</i>`
 	if c.Shape == "nested" {
@@ -156,6 +160,9 @@ func (c *c05Case) wantA(aForm string) (val any, provided, defined bool) {
 	case "bound", "vbind":
 		bv := c05Bound[name]
 		val, provided, defined = bv.V, true, bv.Defined
+	}
+	if c.FmNull {
+		return nil, provided, true
 	}
 	if c.FmA {
 		return "FM_A", provided, defined
@@ -365,7 +372,7 @@ func init() {
 	core.Register(&core.Check{
 		ID:    "C05",
 		Level: "exploration",
-		Rule: "every combination of prop a {omitted, static, interpolated, :bound / v-bind: to 11 values of every JSON-like type incl. 0/false/\"\"/nil/undefined} x prop b {omitted, static, bound} x includer defines a / not x component front-matter defines a / not x :required {none, a, 'a, b', repeated, :require} x shape {single, twice with different props, inside v-for, nested include, include carrying v-if, include carrying v-else} x {explicit include, registered shorthand}; " +
+		Rule: "every combination of prop a {omitted, static, interpolated, :bound / v-bind: to 11 values of every JSON-like type incl. 0/false/\"\"/nil/undefined} x prop b {omitted, static, bound} x includer defines a / not x component front-matter defines a / defines it as null / not x :required {none, a, 'a, b', repeated, :require} x shape {single, twice with different props, inside v-for, nested include, include carrying v-if, include carrying v-else} x {explicit include, registered shorthand}; " +
 			"oracle: reference scope model for the values and types printed inside, the includer's following siblings, error iff a required name was not provided, shorthand byte-identical. non-trivial = all",
 		Bounds:      map[string]string{"quick": "full product (include depth <= 2, fan-out <= 2)", "thorough": "same product"},
 		Assumptions: []string{"a required name that is visible from the includer's scope or the component's front-matter although the include does not pass it, and bindings of nil/undefined values, are unconstrained"},
@@ -384,6 +391,15 @@ func init() {
 								emit(&c05Case{AForm: "bound:a", BForm: b, IncA: incA, FmA: fmA, Req: "none", Shape: shape, Short: short})
 								emit(&c05Case{AForm: "bound:a", BForm: b, IncA: incA, FmA: fmA, Req: "a", Shape: shape, Short: short})
 							}
+						}
+					}
+				}
+			}
+			for _, shape := range []string{"single", "twice", "infor", "nested"} {
+				for _, short := range []bool{false, true} {
+					for _, a := range aForms {
+						for _, incA := range []bool{false, true} {
+							emit(&c05Case{AForm: a, BForm: "omit", IncA: incA, FmNull: true, Req: "none", Shape: shape, Short: short})
 						}
 					}
 				}
